@@ -182,11 +182,15 @@ func streamEncode(sw stream.Writer, v ref.Val) error {
 
 // genericBody is a stream.BodyReader that decodes a struct into a ref.Val.
 type genericBody struct {
-	V   ref.Val
-	Err error
+	V      ref.Val
+	Err    error
+	Ignore bool // leave the body unread
 }
 
 func (g *genericBody) Decode(sr stream.Reader) error {
+	if g.Ignore {
+		return nil // a handler that has no use for its arguments reads nothing
+	}
 	g.V, g.Err = streamDecode(sr, wire.TStruct, 0)
 	return g.Err
 }
